@@ -19,7 +19,7 @@ Findings proved here as counter-examples: F3 (`override_order_counterexample`), 
 (`heuristic_default_counterexample`, `heuristic_off_counterexample`), F16
 (`api_setter_counterexample`), and three more seen while modelling:
 `api_alias_counterexample` (the API setter of a deprecated alias does nothing),
-`hide_parse_errors_not_negated` (`hide_parse_errors = true` turns `show_parse_errors` ON),
+F29 (`hide_parse_errors = true` turned `show_parse_errors` ON; repaired, see `hide_parse_errors_negated`),
 `same_value_flag_clobber_counterexample` (`unstable_features = true` in a file is reset by
 `apply_to`, from `--config` it sticks) and `same_value_stable_channel_counterexample`.
 -/
@@ -273,7 +273,7 @@ theorem style_edition_field_of_default :
 /-- `override_value` of a deprecated alias maps to its successor exactly when the successor has not
 been set: `merge_imports` ↦ `imports_granularity` (`true` ↦ `Crate`, `false` ↦ `Preserve`),
 `fn_args_layout` ↦ `fn_params_layout` (same value), `hide_parse_errors` ↦ `show_parse_errors`
-(same value — see `hide_parse_errors_not_negated`). -/
+(negated — see `hide_parse_errors_negated`). -/
 theorem alias_maps (c : Config) :
     (∀ b, ∃ c', overrideValue c "merge_imports" (.bool b) = some c' ∧
       (getE c' "imports_granularity").val =
@@ -284,7 +284,7 @@ theorem alias_maps (c : Config) :
         if wasSet c "fn_params_layout" then (getE c "fn_params_layout").val else .str s) ∧
     (∀ b, ∃ c', overrideValue c "hide_parse_errors" (.bool b) = some c' ∧
       (getE c' "show_parse_errors").val =
-        if wasSet c "show_parse_errors" then (getE c "show_parse_errors").val else .bool b) := by
+        if wasSet c "show_parse_errors" then (getE c "show_parse_errors").val else .bool (!b)) := by
   have t1 : checkVal "merge_imports" (.bool true) = true ∧
       checkVal "merge_imports" (.bool false) = true := by decide +kernel
   have t3 : checkVal "hide_parse_errors" (.bool true) = true ∧
@@ -306,16 +306,16 @@ theorem alias_maps (c : Config) :
     refine ⟨_, by simp only [overrideValue, hv, if_true]; rfl, ?_⟩
     rw [dispatch_hide_parse_errors, setHideParseErrors_eq, getE_setAlias]
     simp only [wasSet, getE_setVal, getE_setWasSet]
-    by_cases h : (getE c "show_parse_errors").wasSet = true <;> simp [h]
+    by_cases h : (getE c "show_parse_errors").wasSet = true <;> simp [h, negBool]
 
-/-- Finding: the alias `hide_parse_errors` is copied, not negated (config_type.rs:562):
-`--config hide_parse_errors=true` yields `show_parse_errors = true`, i.e. the errors are SHOWN;
-and `hide_parse_errors=false` hides them. -/
-theorem hide_parse_errors_not_negated :
+/-- The alias `hide_parse_errors` is negated into its successor: `--config hide_parse_errors=true`
+yields `show_parse_errors = false`.  (The pinned tree copied the value without negating it, finding
+F29, repaired by `fix: hide_parse_errors = true must turn show_parse_errors off`.) -/
+theorem hide_parse_errors_negated :
     (overrideValue (defaultWithStyleEdition .e2015) "hide_parse_errors" (.bool true)).map
-      (fun c => (getE c "show_parse_errors").val) = some (.bool true) ∧
+      (fun c => (getE c "show_parse_errors").val) = some (.bool false) ∧
     (overrideValue (defaultWithStyleEdition .e2015) "hide_parse_errors" (.bool false)).map
-      (fun c => (getE c "show_parse_errors").val) = some (.bool false) := by decide +kernel
+      (fun c => (getE c "show_parse_errors").val) = some (.bool true) := by decide +kernel
 
 /-- The same mapping for a config file (nightly channel, where the unstable aliases are accepted):
 an alias present in the file sets its successor unless the file sets the successor too. -/
@@ -335,7 +335,7 @@ theorem alias_maps_file (parsed : List (String × Val)) (seOv edOv verOv) (c : C
       (getE c "show_parse_errors").val =
         match parsed.lookup "show_parse_errors" with
         | some g => g
-        | none => v) := by
+        | none => negBool v) := by
   rw [hc0, style_edition_override_beats_file]
   exact alias_file parsed _
 
